@@ -30,7 +30,7 @@ OpText(C, r) ==
                ELSE "[" \o ToString(r.idx) \o "-" \o ToString(r.idx + r.n - 1) \o "]"
       \* an explicit byte offset "+off" makes the operation one fragment of a Read / Write Tag Fragmented transfer
       offs == IF r.svc \in {"readf", "writef"} THEN "+" \o ToString(r.off) ELSE ""
-  IN IF r.svc \in {"read", "readf"} THEN base \o range \o offs ELSE base \o range \o offs \o "=(" \o r.typ \o ")" \o Csv(r.typ, r.vals)
+  IN IF r.svc \in {"read", "readf", "gas"} THEN base \o range \o offs ELSE base \o range \o offs \o "=(" \o r.typ \o ")" \o Csv(r.typ, r.vals)
 
 \* ---- what the application must observe
 \* fragment mode issues the fragmented services (offset 0)
@@ -38,7 +38,7 @@ Frag(r, frag) == IF ~frag THEN r ELSE [r EXCEPT !.svc = IF r.svc = "read" THEN "
 \* does observation ob = [st, ext, vals] (vals: the elements read, <<>> for writes / failures) express outcome o of request r?
 Fits(r, o, ob) ==
   CASE o.k = "ok" -> ob.st = o.st /\ ob.ext = <<>> /\ ob.ok /\ (IF r.svc \in {"read", "readf"} THEN ob.vals = o.data ELSE ob.vals = <<>>)
-    [] o.k = "okbytes" -> ob.st = 0 /\ ob.ok
+    [] o.k = "okbytes" -> ob.st = 0 /\ ob.ok /\ ob.bytes = o.data              \* Get Attribute Single: the attribute's octets
     \* (an API that does not expose the extended status reports it as <<65535>>: then only the status is compared)
     [] o.k = "err" -> ob.st = o.st /\ (ob.ext = o.ext \/ ob.ext = <<65535>>) /\ ~ob.ok
     [] o.k = "anyfail" -> ob.st # 0 /\ ~ob.ok
